@@ -26,7 +26,7 @@ impl Rep {
 }
 
 /// Compare the children of the backing vector with the model emitted by the generator.
-pub fn compare(r: &mut Rep, program: usize, base: &str, mfs: Vec<MetricFamily>, expected: Vec<(Vec<(&str, &str)>, f64, u64)>, npaths: u64) {
+pub fn compare(r: &mut Rep, program: usize, base: &str, mfs: Vec<MetricFamily>, expected: Vec<(Vec<(&str, &str)>, f64, u64)>, npaths: u64, bounds: Option<Vec<f64>>) {
     r.part.evaluations += 1;
     r.part.count("accessor_paths_executed", npaths);
     r.part.count("declared_leaves", expected.len() as u64);
@@ -40,6 +40,12 @@ pub fn compare(r: &mut Rep, program: usize, base: &str, mfs: Vec<MetricFamily>, 
                 "Gauge" | "IntGauge" => (m.get_gauge().value(), 0),
                 _ => (m.get_histogram().get_sample_sum(), m.get_histogram().get_sample_count()),
             };
+            if let (Some(want_bounds), "Histogram") = (&bounds, base) {
+                let got_bounds: Vec<f64> = m.get_histogram().get_bucket().iter().map(|b| b.upper_bound()).collect();
+                if &got_bounds != want_bounds {
+                    r.fail(program, "registered-vector-has-other-buckets", format!("the vector registered through the macro has bucket bounds {:?}, the call named {:?}", got_bounds, want_bounds));
+                }
+            }
             if got.insert(labels.clone(), v).is_some() {
                 r.fail(program, "child-exported-twice", format!("{:?}", labels));
             }
